@@ -2,8 +2,8 @@ SPECIFICATION Spec
 CONSTANTS D = 3
           NPre = 2
           NE = 4
-          EMin = 0
-          EMax = 1
+          EnSet <- E01
+          TMax = 4
           Dirs = {"rtl", "ltr"}
           Caps = {1, 2, 3, 99}
           Canon = TRUE
